@@ -1038,42 +1038,38 @@ Proof.
     congruence.
 Qed.
 
-Definition entries_ok (es : list entry) : Prop := NoDup (map e_path es).
-Definition op_ok (o : op) : Prop := match o with LoadSettings es => entries_ok es | _ => True end.
-
 Lemma sinv_load_entry : forall s e, sinv s -> sinv (load_entry s e).
 Proof.
   intros s [[[p a] m] us] H. unfold load_entry. destruct (find_listed p (listed s)); [apply sinv_update | apply sinv_add]; assumption.
 Qed.
 
-Lemma keep_nodup : forall ds es, NoDup (map e_path es) ->
-  NoDup (map dpath (flat_map (fun e : entry => match find_listed (e_path e) ds with Some d => [d] | None => [] end) es)).
+Lemma keep_dirs_spec : forall ds es acc, NoDup (map dpath acc) -> (forall e, In e acc -> In e ds) ->
+  NoDup (map dpath (keep_dirs ds es acc)) /\ (forall e, In e (keep_dirs ds es acc) -> In e ds).
 Proof.
-  intros ds. induction es as [|en es IH]; intros OK; cbn; [constructor|].
-  cbn in OK. inv OK. rewrite map_app. destruct (find_listed (e_path en) ds) as [d|] eqn:F; cbn; [|apply IH; assumption].
-  constructor; [|apply IH; assumption]. intros Hi. apply in_map_iff in Hi. destruct Hi as [e [E He]].
-  apply in_flat_map in He. destruct He as [en' [Hen' He]].
-  destruct (find_listed (e_path en') ds) as [d'|] eqn:F'; [|destruct He]. destruct He as [He | []]. subst e.
-  apply H1. destruct (find_listed_path _ _ _ F) as [Q1 _]. destruct (find_listed_path _ _ _ F') as [Q2 _].
-  rewrite <- Q1, <- E, Q2. apply in_map. assumption.
+  intros ds. induction es as [|en es IH]; intros acc N S; cbn; [auto|].
+  destruct (find_listed (e_path en) ds) as [d|] eqn:F; [|apply IH; assumption].
+  destruct (existsb (fun k => eqb_path (dpath k) (dpath d)) acc) eqn:E; [apply IH; assumption|].
+  apply IH.
+  - rewrite map_app. cbn. apply NoDup_app_snoc; [assumption|]. intros Hi. apply in_map_iff in Hi. destruct Hi as [k [Ek Hk]].
+    assert (X : existsb (fun k => eqb_path (dpath k) (dpath d)) acc = true); [|congruence].
+    apply existsb_exists. exists k. split; [assumption|]. rewrite Ek. apply eqb_path_refl.
+  - intros e He. apply in_app_or in He. destruct He as [He | [He | []]]; [apply S; assumption|]. subst e. apply (find_listed_path _ _ _ F).
 Qed.
 
-Lemma sinv_load : forall s es, entries_ok es -> sinv s -> sinv (load_raw s es).
+Lemma sinv_load : forall s es, sinv s -> sinv (load_raw s es).
 Proof.
-  intros s es OK H. unfold load_raw.
+  intros s es H. unfold load_raw.
   assert (G : forall es s, sinv s -> sinv (fold_left load_entry es s)).
   { induction es0 as [|e es0 IH]; intros s0 H0; cbn; [assumption|]. apply IH. apply sinv_load_entry. assumption. }
   specialize (G es s H). set (s1 := fold_left load_entry es s) in *.
   eapply sinv_ext; [apply rebuild_listed | apply rebuild_listed |]. unfold sinv. cbn [listed next_id].
-  apply (dinv_sub (listed s1)); [exact G | | apply keep_nodup; exact OK].
-  intros e He. apply in_flat_map in He. destruct He as [en [_ He]].
-  destruct (find_listed (e_path en) (listed s1)) as [d|] eqn:F; [|destruct He]. destruct He as [He | []]. subst e.
-  apply (find_listed_path _ _ _ F).
+  destruct (keep_dirs_spec (listed s1) es []) as [K1 K2]; [constructor | intros e [] |].
+  apply (dinv_sub (listed s1)); [exact G | exact K2 | exact K1].
 Qed.
 
-Lemma sinv_step : forall s o, op_ok o -> sinv s -> sinv (step s o).
+Lemma sinv_step : forall s o, sinv s -> sinv (step s o).
 Proof.
-  intros s o OK H. unfold step. eapply sinv_ext; [reflexivity | reflexivity |]. destruct o; cbn.
+  intros s o H. unfold step. eapply sinv_ext; [reflexivity | reflexivity |]. destruct o; cbn.
   - apply sinv_add; assumption.
   - apply sinv_remove; assumption.
   - apply sinv_update; assumption.
@@ -1081,17 +1077,15 @@ Proof.
   - apply sinv_load; assumption.
 Qed.
 
-Definition ops_ok (ops : list op) : Prop := Forall op_ok ops.
-
-Lemma sinv_run_from : forall ops s, ops_ok ops -> sinv s -> sinv (run_from s ops).
+Lemma sinv_run_from : forall ops s, sinv s -> sinv (run_from s ops).
 Proof.
-  unfold run_from. induction ops as [|o ops IH]; intros s OK H; cbn; [assumption|]. inv OK. apply IH; [assumption|].
+  unfold run_from. induction ops as [|o ops IH]; intros s H; cbn; [assumption|]. apply IH.
   apply sinv_step; assumption.
 Qed.
 
-Lemma sinv_run : forall ops, ops_ok ops -> sinv (run ops).
+Lemma sinv_run : forall ops, sinv (run ops).
 Proof.
-  intros ops OK. apply sinv_run_from; [assumption|]. unfold sinv, init, dinv, owner_ok_l, innermost_l. cbn.
+  intros ops. apply sinv_run_from. unfold sinv, init, dinv, owner_ok_l, innermost_l. cbn.
   split; [constructor|]. split; [constructor|]. split; [intros d []|]. split; [intros d x []|intros d d' x []].
 Qed.
 
@@ -1202,9 +1196,9 @@ Proof.
   unfold scanned_items. rewrite map_abs_reconcile. unfold scan_set. apply nodup_scan_files. apply nodup_files_spec.
 Qed.
 
-Lemma sinv2_step : forall s o, op_ok o -> sinv2 s -> sinv2 (step s o).
+Lemma sinv2_step : forall s o, sinv2 s -> sinv2 (step s o).
 Proof.
-  intros s o OK H. split; [apply sinv_step; [assumption | apply H]|]. unfold step. cbn [listed prune]. destruct o; cbn [step_raw].
+  intros s o H. split; [apply sinv_step; apply H|]. unfold step. cbn [listed prune]. destruct o; cbn [step_raw].
   - apply nodup_add; assumption.
   - apply nodup_remove; assumption.
   - apply nodup_update; assumption.
@@ -1215,17 +1209,17 @@ Proof.
       destruct (find_listed p (listed s0)).
       - split; [apply sinv_update; apply H0 | apply nodup_update; assumption].
       - split; [apply sinv_add; apply H0 | apply nodup_add; assumption]. }
-    destruct (G entries s H) as [_ N]. intros e He. apply in_flat_map in He. destruct He as [en [_ He]].
-    destruct (find_listed (e_path en) (listed (fold_left load_entry entries s))) as [d|] eqn:F; [|destruct He].
-    destruct He as [He | []]. subst e. apply N. apply (find_listed_path _ _ _ F).
+    destruct (G entries s H) as [_ N]. intros e He.
+    destruct (keep_dirs_spec (listed (fold_left load_entry entries s)) entries []) as [_ K2]; [constructor | intros e0 [] |].
+    apply N. apply K2. assumption.
 Qed.
 
-Lemma sinv2_run : forall ops, ops_ok ops -> sinv2 (run ops).
+Lemma sinv2_run : forall ops, sinv2 (run ops).
 Proof.
-  intros ops OK. unfold run.
-  assert (G : forall ops s, ops_ok ops -> sinv2 s -> sinv2 (run_from s ops)).
-  { unfold run_from. induction ops0 as [|o ops0 IH]; intros s OK0 H; cbn; [assumption|]. inv OK0. apply IH; [assumption|]. apply sinv2_step; assumption. }
-  apply G; [assumption|]. split; [apply (sinv_run [] (Forall_nil _)) | intros d []].
+  intros ops. unfold run.
+  assert (G : forall ops s, sinv2 s -> sinv2 (run_from s ops)).
+  { unfold run_from. induction ops0 as [|o ops0 IH]; intros s H; cbn; [assumption|]. apply IH. apply sinv2_step; assumption. }
+  apply G. split; [apply (sinv_run []) | intros d []].
 Qed.
 
 (* ------------------------------------------------------------------ consequences of the invariant *)
@@ -1240,10 +1234,10 @@ Proof.
 Qed.
 
 (* the owner pointer of every held item is the directory that holds it *)
-Lemma owner_pointer : forall ops d x, ops_ok ops -> In d (listed (run ops)) -> In x (ditems d) ->
+Lemma owner_pointer : forall ops d x, In d (listed (run ops)) -> In x (ditems d) ->
   oid x = did d /\ opath x = dpath d /\ find_obj (run ops) (oid x) = Some d.
 Proof.
-  intros ops d x OK Hd Hx. destruct (sinv_run ops OK) as [N1 [N2 [B [O I]]]].
+  intros ops d x Hd Hx. destruct (sinv_run ops) as [N1 [N2 [B [O I]]]].
   destruct (O d x Hd Hx) as [E1 E2]. split; [assumption|]. split; [assumption|].
   unfold find_obj. rewrite E1. apply find_by_did; assumption.
 Qed.
@@ -1252,7 +1246,7 @@ Lemma app_inj_last : forall A (a b : list A) x y, a ++ [x] = b ++ [y] -> a = b /
 Proof. intros. apply app_inj_tail. assumption. Qed.
 
 (* each file is held at most once across the shared directories, by the innermost one containing it *)
-Lemma index_partition : forall ops, ops_ok ops ->
+Lemma index_partition : forall ops,
   let s := run ops in
   (forall d x, In d (listed s) -> In x (ditems d) ->
      path_prefix (dpath d) (dir_of x) = true /\
@@ -1261,7 +1255,7 @@ Lemma index_partition : forall ops, ops_ok ops ->
      abs_path x = abs_path y -> d = d') /\
   (forall d, In d (listed s) -> NoDup (map abs_path (ditems d))).
 Proof.
-  intros ops OK s. destruct (sinv2_run ops OK) as [[N1 [N2 [B [O I]]]] ND]. fold s in N1, N2, B, O, I, ND.
+  intros ops s. destruct (sinv2_run ops) as [[N1 [N2 [B [O I]]]] ND]. fold s in N1, N2, B, O, I, ND.
   split; [|split; [|exact ND]].
   - intros d x Hd Hx. split; [apply (dir_of_owner (listed s)); assumption|]. intros d' Hd' Hp. apply (I d d' x); assumption.
   - intros d d' x y Hd Hd' Hx Hy E.
@@ -1432,15 +1426,10 @@ Proof.
     cbn in N1. inv N1. apply H2. rewrite E. apply in_map. assumption.
 Qed.
 
-Lemma stats_folders : forall ops, ops_ok ops ->
+Lemma stats_folders : forall ops,
   fst (get_stats (run ops)) = length (dedup (map dir_of (listed_items (run ops)))).
-Proof. intros ops OK. unfold get_stats, listed_items. cbn [fst]. apply (stats_folders_l _ _ (sinv_run ops OK)). Qed.
+Proof. intros ops. unfold get_stats, listed_items. cbn [fst]. apply (stats_folders_l _ _ (sinv_run ops)). Qed.
 
-(* a settings list that names a path twice lists the directory twice: the counts double (finding F29) *)
+(* a settings list that names a path twice (the F29 witness) lists the directory once *)
 Definition ops_dup : list op :=
   [LoadSettings [([w_d], c [97], Everyone, []); ([w_d], c [97], Friends, [])]; Scan [w_d] [([w_d; w_sing], 5%N)]].
-Lemma load_duplicates_refuted : exists ops,
-  ~ NoDup (map dpath (listed (run ops))) /\ snd (get_stats (run ops)) = 2 /\ length (dedup (map abs_path (listed_items (run ops)))) = 1.
-Proof.
-  exists ops_dup. split; [|split; vm_compute; reflexivity]. vm_compute. intros H. inv H. apply H2. left. reflexivity.
-Qed.
